@@ -2,10 +2,13 @@ package props
 
 import (
 	"bytes"
+	"context"
 	"encoding/binary"
+	"errors"
 	"fmt"
 
 	stream_packet "github.com/aperturerobotics/bifrost/stream/packet"
+	"github.com/aperturerobotics/bifrost/util/rwc"
 	"github.com/aperturerobotics/starpc/srpc"
 
 	"verif/sim/dsim"
@@ -21,18 +24,29 @@ import (
 // writer's messages arrive in that writer's order, each exactly once; at quiescence all
 // of them have arrived.
 type c08Conc struct {
-	s      *dsim.Sim
-	sess   [2]*stream_packet.Session
-	ends   [2]*dsim.ByteEnd
-	exp    [2]map[int][][]byte // direction -> writer -> expected queue
-	busy   [2]map[int]bool
-	got    [2]int
-	sent   [2]int
-	ops    int
-	maxOps int
-	nw     int
-	viol   *dsim.Violation
-	seq    int
+	s       *dsim.Sim
+	pc      bool // PacketConn writers (WriteTo) instead of Session writers (SendMsg)
+	pcs     [2]*rwc.PacketConn
+	cancel  context.CancelFunc
+	sess    [2]*stream_packet.Session
+	ends    [2]*dsim.ByteEnd
+	exp     [2]map[int][][]byte // direction -> writer -> expected queue
+	busy    [2]map[int]bool
+	got     [2]int
+	sent    [2]int
+	ops     int
+	maxOps  int
+	nw      int
+	viol    *dsim.Violation
+	seq     int
+	tearing bool
+}
+
+func (w *c08Conc) wit() string {
+	if w.pc {
+		return "pc-concurrent"
+	}
+	return "sess-concurrent"
 }
 
 func (w *c08Conc) fail(v *dsim.Violation) {
@@ -48,19 +62,37 @@ func (w *c08Conc) Setup(s *dsim.Sim) {
 	w.ends = [2]*dsim.ByteEnd{a, b}
 	w.nw = 2 + t.Draw(2, "writers")
 	w.maxOps = 4 + t.Draw(16, "max-ops")
+	w.pc = t.Bool(1, 3, "packet-conn-writers")
 	for i := 0; i < 2; i++ {
 		w.exp[i] = map[int][][]byte{}
 		w.busy[i] = map[int]bool{}
 		i := i
 		e := w.ends[i]
-		e.W.SlowWrite = func() {
-			s.Count("fault:flow-controlled-write")
-			s.Yield("harness/slow-write", e.W.Name)
+		if w.pc {
+			// PacketConn.WriteTo takes no lock of its own: it relies on one underlying Write
+			// per frame being atomic (as a socket's is). Writes stay atomic here; the
+			// scheduling point sits between two Write calls.
+			e.W.PreWrite = func() {
+				s.Count("fault:concurrent-write-calls")
+				s.Yield("harness/pre-write", e.W.Name)
+			}
+		} else {
+			e.W.SlowWrite = func() {
+				s.Count("fault:flow-controlled-write")
+				s.Yield("harness/slow-write", e.W.Name)
+			}
 		}
 	}
-	w.sess[0] = stream_packet.NewSession(a, 4096)
-	w.sess[1] = stream_packet.NewSession(b, 4096)
-	s.ArmFraction([]int{100, 100, 60}[t.Draw(3, "arm-pct")], []string{"harness/slow-write"})
+	if w.pc {
+		var ctx context.Context
+		ctx, w.cancel = context.WithCancel(context.Background())
+		w.pcs[0] = rwc.NewPacketConn(ctx, a, c08Addr("a"), c08Addr("b"), 4096, 10)
+		w.pcs[1] = rwc.NewPacketConn(ctx, b, c08Addr("b"), c08Addr("a"), 4096, 10)
+	} else {
+		w.sess[0] = stream_packet.NewSession(a, 4096)
+		w.sess[1] = stream_packet.NewSession(b, 4096)
+	}
+	s.ArmFraction([]int{100, 100, 60}[t.Draw(3, "arm-pct")], []string{"harness/slow-write", "harness/pre-write"})
 	for i := 0; i < 2; i++ {
 		w.startReader(i)
 	}
@@ -72,11 +104,24 @@ func (w *c08Conc) startReader(i int) {
 	s := w.s
 	go func() {
 		for {
-			msg := srpc.NewRawMessage(nil, true)
-			if err := w.sess[i].RecvMsg(msg); err != nil {
-				return
+			var data []byte
+			if w.pc {
+				buf := make([]byte, 5000)
+				n, _, err := w.pcs[i].ReadFrom(buf)
+				if err != nil {
+					if !errors.Is(err, context.Canceled) && w.viol == nil && !w.tearing {
+						w.fail(&dsim.Violation{Property: "C08", Rule: "reader-failed-on-valid-stream", Witness: "pc-concurrent", Detail: fmt.Sprintf("dir %d: ReadFrom failed although only whole frames were written: %v", dir, err)})
+					}
+					return
+				}
+				data = buf[:n]
+			} else {
+				msg := srpc.NewRawMessage(nil, true)
+				if err := w.sess[i].RecvMsg(msg); err != nil {
+					return
+				}
+				data = msg.GetData()
 			}
-			data := msg.GetData()
 			w.got[dir]++
 			s.Count("done:packet")
 			if len(data) < 6 {
@@ -86,12 +131,12 @@ func (w *c08Conc) startReader(i int) {
 			k := int(data[0])
 			q := w.exp[dir][k]
 			if len(q) == 0 {
-				w.fail(&dsim.Violation{Property: "C08", Rule: "packet-from-nowhere", Witness: "sess-concurrent",
+				w.fail(&dsim.Violation{Property: "C08", Rule: "packet-from-nowhere", Witness: w.wit(),
 					Detail: fmt.Sprintf("dir %d: read a message attributed to writer %d (index %d, %d bytes) but that writer has nothing outstanding", dir, k, binary.LittleEndian.Uint32(data[1:5]), len(data))})
 				return
 			}
 			if !bytes.Equal(q[0], data) {
-				w.fail(&dsim.Violation{Property: "C08", Rule: "packet-mismatch", Witness: "sess-concurrent/" + mismatchKind(data, q[0]),
+				w.fail(&dsim.Violation{Property: "C08", Rule: "packet-mismatch", Witness: w.wit() + "/" + mismatchKind(data, q[0]),
 					Detail: fmt.Sprintf("dir %d: next message of writer %d should be %d bytes %x…, read %d bytes %x… (concurrent SendMsg calls over a flow-controlled stream)", dir, k, len(q[0]), head(q[0]), len(data), head(data))})
 				return
 			}
@@ -129,10 +174,15 @@ func (w *c08Conc) Actions(s *dsim.Sim, add func(dsim.Action)) {
 				w.sent[dir]++
 				w.busy[dir][k] = true
 				go func() {
-					err := w.sess[dir].SendMsg(srpc.NewRawMessage(p, false))
+					var err error
+					if w.pc {
+						_, err = w.pcs[dir].WriteTo(p, c08Addr([]string{"b", "a"}[dir]))
+					} else {
+						err = w.sess[dir].SendMsg(srpc.NewRawMessage(p, false))
+					}
 					w.busy[dir][k] = false
 					if err != nil {
-						w.fail(&dsim.Violation{Property: "C08", Rule: "send-failed", Witness: "sess-concurrent", Detail: err.Error()})
+						w.fail(&dsim.Violation{Property: "C08", Rule: "send-failed", Witness: w.wit(), Detail: err.Error()})
 					}
 				}()
 			}})
@@ -159,7 +209,7 @@ func (w *c08Conc) Final(s *dsim.Sim, stuck bool) *dsim.Violation {
 	}
 	for dir := 0; dir < 2; dir++ {
 		if w.got[dir] != w.sent[dir] {
-			return &dsim.Violation{Property: "C08", Rule: "packets-lost", Witness: "sess-concurrent",
+			return &dsim.Violation{Property: "C08", Rule: "packets-lost", Witness: w.wit(),
 				Detail: fmt.Sprintf("dir %d: %d messages sent by concurrent writers, %d read at quiescence", dir, w.sent[dir], w.got[dir])}
 		}
 	}
@@ -167,6 +217,10 @@ func (w *c08Conc) Final(s *dsim.Sim, stuck bool) *dsim.Violation {
 }
 
 func (w *c08Conc) Teardown(s *dsim.Sim) {
+	w.tearing = true
+	if w.cancel != nil {
+		w.cancel()
+	}
 	for _, e := range w.ends {
 		e.W.Reset(dsim.ErrByteReset)
 		e.R.Reset(dsim.ErrByteReset)
